@@ -34,7 +34,7 @@ def EXHAUSTIVE(tier):
 
 
 def jobs(tier):
-    js = [("C10", side, tls) for side in ("server", "client") for tls in (False, True)]
+    js = [("C10", side, tls, wl) for side in ("server", "client") for tls in (False, True) for wl in (False, True)]
     return sharded(js, 8 if tier == "quick" else 32)
 
 
@@ -42,16 +42,16 @@ PEER_ACTS = ["none", "close", "rst", "shutwr"]
 
 
 def harness(job, ch):
-    _, side, tls = job[:3]
+    _, side, tls, wl = job[:4]
     if side == "server":
-        return server_side(tls, ch)
-    return client_side(tls, ch)
+        return server_side(tls, ch, wl)
+    return client_side(tls, ch, wl)
 
 
-def server_side(tls, ch):
+def server_side(tls, ch, wl=False):
     """victim = raw peer socket driven by the harness (c0) ; sibling = real hio client (c1)"""
     pol = tcpsys.XPolicy(ch, partial=False, faults=ERRS, tlsfaults=tls, wants=False, connect_alts=False, only={"s0"})
-    w = tcpsys.TcpWorld(ch, tls=tls, bs=64, policy=pol, nclients=2)
+    w = tcpsys.TcpWorld(ch, tls=tls, bs=64, policy=pol, nclients=2, wirelog=wl)
     viol = []
     states = []
     acted = []
@@ -176,7 +176,7 @@ def _marked(w, victim, rem):
     return False, "cutoff=%s aborted=%s in tables" % (rem.cutoff, getattr(rem, "aborted", None))
 
 
-def client_side(tls, ch):
+def client_side(tls, ch, wl=False):
     """victim = real hio client; its peer is a raw FakeNet listener driven by the harness"""
     pol = tcpsys.XPolicy(ch, partial=False, faults=ERRS, tlsfaults=tls, wants=False, connect_alts=False, only={"c0"})
     net = fakenet.Net(pol)
@@ -189,6 +189,10 @@ def client_side(tls, ch):
         ls.listen(5)
         ls.owner = "listen"
         kw = dict(host="127.0.0.1", port=6101, bs=64)
+        if wl:      # a wire log attached: its bookkeeping (peer address labels) must not turn a fault into an escape
+            from hio.core import wiring
+            kw["wl"] = wiring.WireLog(samed=False, filed=False, fmt=b"%(data)b", name="victim")
+            kw["wl"].reopen()
         client = clienting.ClientTls(context=fakenet.FakeSSLContext(net), **kw) if tls else clienting.Client(**kw)
         client.reopen()
         client.cs.owner = "c0"
@@ -228,6 +232,12 @@ def client_side(tls, ch):
                 d = s.recv(64)
                 if d and not s.wr_shut:
                     s.send(d)
+                    # the peer may die right after answering: its answer is still unread at the client when the close / reset lands
+                    b = PEER_ACTS[ch.choose(3, "peer-after-answer@%d" % k)]
+                    if b in ("close", "rst"):
+                        acted.append((k, b + "-after-answer"))
+                        s.close() if b == "close" else s.abort()
+                        died[0] = True
             except OSError:
                 pass
         for k in range(7):
@@ -250,7 +260,7 @@ def client_side(tls, ch):
         for where, site, name in escaped:
             viol.append(("escape:%s:%s:%s" % (site, name, ctx), "%s raised %s at %s (faults %s, peer %s)" % (where, name, site, pol.injected, acted)))
         if not escaped:
-            hard = list(pol.injected) or [a for a in acted if a[1] in ("close", "rst")]
+            hard = list(pol.injected) or [a for a in acted if a[1].split("-")[0] in ("close", "rst")]
             def marked():
                 c0 = [x for x in net.socks if x.owner == "c0"]
                 return client.cutoff or client.cs is None or not client.connected or (c0 and c0[0].closed)
